@@ -1,8 +1,156 @@
 import Drv.Base
-open Lean Pdt
+import PdtModel.Model.PathRes
+open Lean Pdt Pdt.PathRes
 namespace Drv
 
-/-- op handler of the `PathRes` layer (stub until the layer is built) -/
-def handlePathRes (_op : String) (_j : Json) : Option (Except String Json) := none
+namespace PR
+
+def errName : Err → String
+  | .loadError => "LoadError"
+  | .inputError => "InputError"
+  | .runtimeError => "RuntimeError"
+  | .fileNotFound => "FileNotFoundError"
+  | .valueError => "ValueError"
+  | .typeError => "TypeError"
+
+def absStr (p : Segs) : Json := str (render ⟨1, p⟩)
+
+def optStr (j : Json) (k : String) : Except String (Option Str) := do
+  match j.getObjVal? k with
+  | .error _ => pure none
+  | .ok .null => pure none
+  | .ok v => do let s ← v.getStr?; pure (some s.toList)
+
+def pathOfJson (v : Json) : Except String Segs := do
+  let s ← v.getStr?
+  pure (parsePath s.toList).segs
+
+def fsOfJson (j : Json) : Except String FS := do
+  let ls ← getArr j "links"
+  let links ← ls.mapM (fun kv => do
+    let a ← kv.getArr?
+    match a.toList with
+    | [p, t] => do
+      let ps ← pathOfJson p
+      let ts ← t.getStr?
+      pure (ps, parsePath ts.toList)
+    | _ => throw "bad link")
+  let cwd ← getStr j "cwd"
+  let fuel ← getNat j "fuel"
+  pure ⟨links, (parsePath cwd).segs, fuel⟩
+
+def cfgOfJson (j : Json) : Except String Cfg := do
+  let root ← optStr j "root"
+  let proto ← match (← optStr j "proto") with
+    | some p => pure p
+    | none => pure defaultProto
+  let raises ← match j.getObjVal? "tracker_raises" with
+    | .ok v => v.getBool?
+    | .error _ => pure false
+  pure ⟨root.map parsePath, proto, raises⟩
+
+def pathList (j : Json) (k : String) : Except String (List Segs) := do
+  match j.getObjVal? k with
+  | .error _ => pure []
+  | .ok v => do let a ← v.getArr?; a.toList.mapM pathOfJson
+
+def resolverOfJson (fs : FS) (j : Json) : Except String Resolver := do
+  match j.getObjVal? "resolver" with
+  | .ok (.str "spec") => pure fs.resolve
+  | .ok (.str "py312") => pure fs.py312Resolve
+  | .error _ => pure fs.py312Resolve
+  | _ => throw "bad resolver"
+
+def worldOfJson (R : Resolver) (j : Json) : Except String World := do
+  let dirs ← pathList j "dirs"
+  let files ← pathList j "files"
+  let unsup ← pathList j "unsupported"
+  let es ← getArr j "entries"
+  let entries ← es.mapM (fun kv => do
+    let a ← kv.getArr?
+    match a.toList with
+    | [p, ns] => do
+      let ps ← pathOfJson p
+      let names ← ns.getArr?
+      let names ← names.toList.mapM (fun n => do let s ← n.getStr?; pure s.toList)
+      pure (ps, names)
+    | _ => throw "bad entries")
+  let kind := fun (p : Segs) =>
+    if dirs.contains p then Kind.dir
+    else if files.contains p then Kind.file
+    else if unsup.contains p then Kind.unsupported
+    else Kind.missing
+  let ent := fun (p : Segs) =>
+    match entries.find? (fun kv => kv.1 == p) with
+    | some kv => kv.2
+    | none => []
+  pure ⟨R, kind, ent⟩
+
+def evToJson : Ev → Json
+  | .resolve p => arr [Json.str "resolve", str (render p)]
+  | .check p ok => arr [Json.str "check", absStr p, Json.bool ok]
+  | .report => arr [Json.str "report"]
+  | .stat p => arr [Json.str "stat", absStr p]
+  | .listdir p => arr [Json.str "listdir", absStr p]
+  | .open p => arr [Json.str "open", absStr p]
+
+def pathJson (p : PPath) : Json :=
+  Json.mkObj [("anchor", nat p.anchor), ("segs", arr (p.segs.map str)), ("str", str (render p)),
+              ("abs", Json.bool p.isAbsolute)]
+
+end PR
+
+open PR in
+def handlePathRes (op : String) (j : Json) : Option (Except String Json) :=
+  match op with
+  | "pathres_parse" => some do
+    let s ← getStr j "s"
+    pure (pathJson (parsePath s))
+  | "pathres_join" => some do
+    let a ← getStr j "a"
+    let b ← getStr j "b"
+    pure (pathJson (join (parsePath a) (parsePath b)))
+  | "pathres_relative_to" => some do
+    let a ← getStr j "p"
+    let b ← getStr j "root"
+    pure (Json.bool (relativeTo (parsePath a) (parsePath b)))
+  | "pathres_realpath" => some do
+    let fs ← fsOfJson (← j.getObjVal? "fs")
+    let p ← getStr j "p"
+    let one := fun (r : Option Segs) => match r with
+      | some r => absStr r
+      | none => exc "RuntimeError"
+    pure (Json.mkObj [("spec", one (fs.resolve (parsePath p))), ("py312", one (fs.py312Resolve (parsePath p)))])
+  | "pathres_resolve_item" => some do
+    let fs ← fsOfJson (← j.getObjVal? "fs")
+    let cfg ← cfgOfJson j
+    let spec ← getStr j "spec"
+    let src ← optStr j "src"
+    let R ← resolverOfJson fs j
+    let (tr, r) := resolveLoadItem cfg R spec (src.map parsePath)
+    let res := match r with
+      | .ok p => Json.mkObj [("ok", absStr p)]
+      | .error e => exc (errName e)
+    pure (Json.mkObj [("res", res), ("trace", arr (tr.map evToJson))])
+  | "pathres_load" => some do
+    let fs ← fsOfJson (← j.getObjVal? "fs")
+    let cfg ← cfgOfJson j
+    let R ← resolverOfJson fs j
+    let w ← worldOfJson R (← j.getObjVal? "world")
+    let fuel ← getNat j "loop_fuel"
+    let roots ← match j.getObjVal? "roots" with
+      | .ok .null => pure none
+      | .error _ => pure none
+      | .ok v => do
+        let a ← v.getArr?
+        let rs ← a.toList.mapM (fun n => do let s ← n.getStr?; pure s.toList)
+        pure (some rs)
+    let (tr, e) := loadFiles cfg w fuel roots
+    let endJ := match e with
+      | .done => Json.str "done"
+      | .outOfFuel => Json.str "out-of-fuel"
+      | .aborted err => exc (errName err)
+    pure (Json.mkObj [("end", endJ), ("trace", arr (tr.map evToJson))])
+  | _ => none
 
 end Drv
